@@ -266,7 +266,10 @@ class Ctx:
         os.makedirs(os.path.join(VERIF, "evidence"), exist_ok=True)
         with open(os.path.join(VERIF, "evidence", self.prop + ".json"), "w") as f:
             json.dump(ev, f, indent=1, default=str)
-        shutil.rmtree(self.tmp, ignore_errors=True)
+        if os.environ.get("VERIF_KEEP_TMP"):
+            print("kept " + self.tmp)
+        else:
+            shutil.rmtree(self.tmp, ignore_errors=True)
         seen = set()
         for v in real:
             if v.replay in seen:
